@@ -13,6 +13,7 @@ const (
 	eNullable
 	eArray
 	eChoice
+	eRequiredExplicit // `optional: false` written out: as mandatory as no rule at all
 	eKinds
 )
 
@@ -22,7 +23,8 @@ type vEdge struct {
 }
 
 type vType struct {
-	fields []vEdge
+	fields       []vEdge
+	nullableRoot bool // the type's root object carries `nullable: true`: null is an instance
 }
 
 func vTypeName(i int) string { return string([]byte{'@', byte('a' + i)}) }
@@ -42,6 +44,8 @@ func vFieldText(name string, e vEdge, last bool) string {
 		return `  "` + name + `": ` + X + comma + ` // {nullable: true}` + "\n"
 	case eArray:
 		return `  "` + name + `": [` + X + `]` + comma + "\n"
+	case eRequiredExplicit:
+		return `  "` + name + `": ` + X + comma + ` // {optional: false}` + "\n"
 	default:
 		return `  "` + name + `": ` + X + ` | ` + Y + comma + "\n"
 	}
@@ -49,6 +53,9 @@ func vFieldText(name string, e vEdge, last bool) string {
 
 func vTypeText(t vType) string {
 	s := "{\n"
+	if t.nullableRoot {
+		s = "{ // {nullable: true}\n"
+	}
 	for i, f := range t.fields {
 		s += vFieldText(string([]byte{byte('f' + i)}), f, i == len(t.fields)-1)
 	}
@@ -66,8 +73,11 @@ func vFinite(ts []vType) []bool {
 			}
 			ok := true
 			for _, f := range t.fields {
+				if t.nullableRoot {
+					break // null is a finite instance
+				}
 				switch f.kind {
-				case eRequired:
+				case eRequired, eRequiredExplicit:
 					ok = ok && fin[f.x]
 				case eChoice:
 					ok = ok && (fin[f.x] || fin[f.y])
@@ -87,8 +97,11 @@ func vSelfRequiring(ts []vType, root int) bool {
 	seen := make([]bool, len(ts))
 	var visit func(i int) bool
 	visit = func(i int) bool {
+		if ts[i].nullableRoot {
+			return false // nothing is required below a nullable root
+		}
 		for _, f := range ts[i].fields {
-			if f.kind != eRequired {
+			if f.kind != eRequired && f.kind != eRequiredExplicit {
 				continue
 			}
 			if f.x == root {
@@ -130,6 +143,9 @@ func vBuildProjectWith(nf []int) ([]vType, *JSchema) {
 	}
 	// the root IS the type @a: checked under its own name with every type
 	// (itself included) registered, as a JSight API document does
+	if vNullableRootOfSecond && n > 1 {
+		ts[1].nullableRoot = zzverif.Bool("nullableRoot")
+	}
 	texts := make([]string, n)
 	for i := range ts {
 		texts[i] = vTypeText(ts[i])
@@ -165,9 +181,15 @@ func VerifC06_TwoMembers() {
 		nf = []int{1, 2}
 	}
 
+	vNullableRootOfSecond = true
 	ts, root := vBuildProjectWith(nf)
+	vNullableRootOfSecond = false
 	vRecursionVerdict(ts, root)
 }
+
+// vNullableRootOfSecond: vBuildProjectWith lets the root object of the second
+// type carry `nullable: true` (symbolic choice).
+var vNullableRootOfSecond bool
 
 func vRecursionVerdict(ts []vType, root *JSchema) {
 	fin := vFinite(ts)
@@ -204,8 +226,11 @@ func vShortestSelfCycle(ts []vType, root int) int {
 	for d := 1; d <= len(ts) && len(frontier) > 0; d++ {
 		var next []int
 		for _, i := range frontier {
+			if ts[i].nullableRoot {
+				continue
+			}
 			for _, f := range ts[i].fields {
-				if f.kind != eRequired {
+				if f.kind != eRequired && f.kind != eRequiredExplicit {
 					continue
 				}
 				if f.x == root {
